@@ -73,6 +73,22 @@ def search(res, tier, seed, deep=False):
                     if name in ("QuantileMapping", "ECDFM", "ISIMIP") and mode == "none" and var == "tas":
                         if abs(out.std() - obs.std()) > (1e-6 if name != "ISIMIP" else 0.05) * obs.std():
                             report("spread:" + name, inp, [float(out.std()), float(obs.std())], "the calibrated spread is not reproduced")
+        # CDFt with the multiplicative delta shift (the default of hurs, rsds, sfcWind, tasskew): relative-humidity-like data
+        for mi, mode in enumerate(["none", "days"] if tier != "quick" else [["none", "days"][(seed + rnd) % 2]]):
+            rs = np.random.RandomState(r.randint(0, 10 ** 6))
+            n = 365 * 3 + 1; nH = n if (mi + seed + rnd) % 2 else 3652
+            mkh = lambda m, sh, sc: np.clip(60 + sh + sc * 15 * rs.standard_normal(m) + 10 * np.sin(np.arange(m) * 2 * np.pi / 365.25), 1, 100)
+            obs, hist = mkh(n, 0, 1.0), mkh(nH, r.choice([-12, 9]), 1.3)
+            d = R.build("CDFt", "hurs", mode, r)
+            inp = dict(debiaser="CDFt", variable="hurs", delta_shift=str(d.delta_shift), window_mode=mode, n=n, n_hist=nH, seed=seed)
+            try:
+                out = R.run(d, obs, hist, hist.copy(), R.times(n, "1981-01-01"), R.times(nH, "1981-01-01"), R.times(nH, "1981-01-01"))
+            except Exception as e:
+                report("exception:CDFt:hurs", inp, repr(e)[:300], "apply_location raised"); continue
+            res.case(("c01", "CDFt", "hurs", mode))
+            orig = hist.mean() - obs.mean(); resid = out.mean() - obs.mean()
+            if not (abs(resid) <= 0.05 * abs(orig)):
+                report("residual-bias:CDFt:hurs:fraction", inp, dict(residual=float(resid), original=float(orig)), "debiasing the reference period leaves a residual mean bias above the admitted level")
         # ISIMIP with detrending active: a significant trend in one of the two calibration series must not
         # leave a mean bias (the trend is removed around the series mean and restored)
         if True:
